@@ -199,8 +199,47 @@ def reshape_identity(ctx, R, rule):
         rc = C.calls_to(ctx, c, 'placement.objects.reshaper:reshape')
         for call in rc:
             R.ob(rule, 'handler:passes-mapping-unchanged',
-                 len(call.args) >= 2 and src(call.args[1]) ==
-                 'inventory_by_rp',
+                 len(call.args) >= 2 and _provider_keyed_mapping(
+                     ctx, h, call.args[1]),
                  'the handler passes the mapping keyed by the compared '
                  'provider objects', src(call), func=c, node=call,
                  nontrivial=False)
+
+
+def _provider_keyed_mapping(ctx, h, arg):
+    """arg names a dict of the handler, created empty once, whose only
+    stores are ``m[rp] = ...`` with rp the loaded provider object."""
+    if not isinstance(arg, ast.Name):
+        return False
+    m = arg.id
+    defs = [n for n in own_nodes(h.node) if isinstance(n, ast.Assign)
+            and any(isinstance(t, ast.Name) and t.id == m
+                    for t in n.targets)]
+    if len(defs) != 1 or not (isinstance(defs[0].value, ast.Dict)
+                              and not defs[0].value.keys):
+        return False
+    stores = [n for n in own_nodes(h.node) if isinstance(n, ast.Subscript)
+              and isinstance(n.ctx, ast.Store) and isinstance(
+                  n.value, ast.Name) and n.value.id == m]
+    if not stores:
+        return False
+    for st in stores:
+        k = st.slice
+        if not isinstance(k, ast.Name):
+            return False
+        kd = [n for n in own_nodes(h.node) if isinstance(n, ast.Assign)
+              and any(isinstance(t, ast.Name) and t.id == k.id
+                      for t in n.targets)]
+        if len(kd) != 1 or not isinstance(kd[0].value, ast.Call) or not any(
+                x.endswith('ResourceProvider.get_by_uuid')
+                for x in C.call_name(ctx, h, kd[0].value)):
+            return False
+    # no other mutation (pop / update / del)
+    for n in own_nodes(h.node):
+        if isinstance(n, ast.Call) and isinstance(
+                n.func, ast.Attribute) and isinstance(
+                    n.func.value, ast.Name) and n.func.value.id == m and \
+                n.func.attr in ('pop', 'update', 'clear', 'popitem',
+                                'setdefault'):
+            return False
+    return True
